@@ -18,7 +18,10 @@ for out, p in procs:
     if p.returncode: print("worker failed", err[-500:])
     for line in open(out):
         j = json.loads(line)
-        if j.get("summary"): runs += j["runs"]; steps += j["steps"]; continue
+        if j.get("summary"):
+            runs += j["runs"]; steps += j["steps"]
+            if j.get("slowest") and j["slowest"][0] > 8: print("SLOW", j["slowest"][0], j["slowest"][1], j["slowest"][2], j["slowest"][3], {k: v for k, v in (j["slowest"][4] or {}).items() if k in j["slowest"][2]})
+            continue
         if j.get("harness"): print("HARNESS", j["seed"], j["harness"], j.get("tb", "")[-600:])
         for v in j.get("violations", []):
             msg = re.sub(r"[0-9.e+-]{4,}", "#", v["detail"])[:70]
